@@ -478,18 +478,18 @@ Proof.
   intros D HD. induction n as [|n IH]; unfold ev_ok; intros G e t r l Ht Hr; [exact I|].
   pose proof IH as IH'. unfold ev_ok in IH.
   simpl. inversion Ht; subst; simpl.
-  - (* lit *) destruct l0; constructor.
+  - (* lit *) apply mres_ret. destruct l0; constructor.
   - (* var *)
-    destruct (env_typ_lookup _ _ _ Hr _ _ H) as [v [E Hv]]. rewrite E. apply Hv. assumption.
+    destruct (env_typ_lookup _ _ _ Hr _ _ H) as [v [E Hv]]. rewrite E. apply mres_ret. apply Hv. assumption.
   - (* lam *)
-    destruct xs as [|x xs]; [congruence|].
+    destruct xs as [|x xs]; [congruence|]. apply mres_ret.
     eapply VT_Clo with (Gg := []) (G := G); eauto.
   - (* app *)
-    eapply mres_bind; [eapply IH; eassumption|]. intros fv l1 Hfv.
-    eapply mres_bind; [eapply eval_list_ok; try exact IH'; eassumption|]. intros vs l2 Hvs.
-    eapply apply_ok; try exact IH'; eassumption.
+    eapply mres_bind; [eapply IH; eassumption|]. intros fv l1 Hfv; simpl in Hfv.
+    eapply mres_bind; [eapply eval_list_ok; try exact IH'; eassumption|]. intros vs l2 Hvs; simpl in Hvs.
+    simpl in Hfv, Hvs. exact (apply_ok D _ IH' n fv vs ts t l2 Hfv Hvs).
   - (* let, pattern *)
-    eapply mres_bind; [eapply IH; eassumption|]. intros v l1 Hv.
+    eapply mres_bind; [eapply IH; eassumption|]. intros v l1 Hv; simpl in Hv.
     destruct (pmatch p v) as [b|] eqn:E; [|exact I].
     eapply IH; [eassumption|]. apply env_typ_app; [|assumption]. eapply pmatch_typ; eauto.
   - (* let, generalising *)
@@ -499,71 +499,432 @@ Proof.
       destruct (eval n r e1 l) as [[v|err| |] l1] eqn:E; simpl in *; auto.
       intros t2 Ht2. pose proof (IH _ _ _ _ l (H0 _ Ht2) Hr) as K2.
       unfold mres in K2. rewrite E in K2. exact K2.
-    + intros v l1 Hv. simpl. eapply IH; [eassumption|]. constructor; assumption.
+    + intros v l1 Hv; simpl in Hv. simpl. eapply IH; [eassumption|]. constructor; assumption.
   - (* rec *)
     eapply IH; [eassumption|]. apply bind_recs_poly; assumption.
   - (* if *)
-    eapply mres_bind; [eapply IH; eassumption|]. intros v l1 Hv.
+    eapply mres_bind; [eapply IH; eassumption|]. intros v l1 Hv; simpl in Hv.
     destruct (vtyp_bool _ _ HD Hv) as [[|] ->]; eapply IH; eassumption.
   - (* prim *)
-    eapply mres_bind; [eapply IH; eassumption|]. intros x l1 Hx.
-    eapply mres_bind; [eapply IH; eassumption|]. intros y l2 Hy.
+    eapply mres_bind; [eapply IH; eassumption|]. intros x l1 Hx; simpl in Hx.
+    eapply mres_bind; [eapply IH; eassumption|]. intros y l2 Hy; simpl in Hy.
     apply prim_apply_ok; assumption.
   - (* and *)
-    eapply mres_bind; [eapply IH; eassumption|]. intros v l1 Hv.
+    eapply mres_bind; [eapply IH; eassumption|]. intros v l1 Hv; simpl in Hv.
     destruct (vtyp_bool _ _ HD Hv) as [[|] ->]; [eapply IH; eassumption|].
-    apply vbool_typ; assumption.
+    apply mres_ret. apply vbool_typ; assumption.
   - (* or *)
-    eapply mres_bind; [eapply IH; eassumption|]. intros v l1 Hv.
+    eapply mres_bind; [eapply IH; eassumption|]. intros v l1 Hv; simpl in Hv.
     destruct (vtyp_bool _ _ HD Hv) as [[|] ->]; [|eapply IH; eassumption].
-    apply vbool_typ; assumption.
+    apply mres_ret. apply vbool_typ; assumption.
   - (* record *)
-    eapply mres_bind; [eapply eval_fields_ok; try exact IH'; eassumption|]. intros vs l1 Hvs.
-    constructor; assumption.
+    eapply mres_bind; [eapply eval_fields_ok; try exact IH'; eassumption|]. intros vs l1 Hvs; simpl in Hvs.
+    apply mres_ret. constructor; assumption.
   - (* record update *)
-    eapply mres_bind; [eapply eval_fields_ok; try exact IH'; eassumption|]. intros vs l1 Hvs.
-    eapply mres_bind; [eapply IH; eassumption|]. intros bv l2 Hbv.
+    eapply mres_bind; [eapply eval_fields_ok; try exact IH'; eassumption|]. intros vs l1 Hvs; simpl in Hvs.
+    eapply mres_bind; [eapply IH; eassumption|]. intros bv l2 Hbv; simpl in Hbv.
     apply vtyp_rcd_inv in Hbv. destruct Hbv as [bfs [-> Hb]].
-    constructor. rewrite rcd_update_upd. apply upd_typ; assumption.
+    apply mres_ret. constructor. rewrite rcd_update_upd. apply upd_typ; assumption.
   - (* projection *)
-    eapply mres_bind; [eapply IH; eassumption|]. intros v l1 Hv.
+    eapply mres_bind; [eapply IH; eassumption|]. intros v l1 Hv; simpl in Hv.
     apply vtyp_rcd_inv in Hv. destruct Hv as [fs [-> Hfs]].
     pose proof (fstyp_assoc _ _ _ Hfs l0) as A. rewrite H0 in A.
-    destruct A as [x [-> Hx]]. exact Hx.
+    destruct A as [x [-> Hx]]. apply mres_ret. exact Hx.
   - (* tuple *)
-    eapply mres_bind; [eapply eval_list_ok; try exact IH'; eassumption|]. intros vs l1 Hvs.
-    constructor. apply number_fields_typ; assumption.
+    eapply mres_bind; [eapply eval_list_ok; try exact IH'; eassumption|]. intros vs l1 Hvs; simpl in Hvs.
+    apply mres_ret. constructor. apply number_fields_typ; assumption.
   - (* constructor *)
-    eapply mres_bind; [eapply eval_list_ok; try exact IH'; eassumption|]. intros vs l1 Hvs.
-    econstructor; eassumption.
+    eapply mres_bind; [eapply eval_list_ok; try exact IH'; eassumption|]. intros vs l1 Hvs; simpl in Hvs.
+    apply mres_ret. econstructor; eassumption.
   - (* array *)
-    eapply mres_bind; [eapply eval_all_ok; try exact IH'; eassumption|]. intros vs l1 Hvs.
-    constructor; assumption.
+    eapply mres_bind; [eapply eval_all_ok; try exact IH'; eassumption|]. intros vs l1 Hvs; simpl in Hvs.
+    apply mres_ret. constructor; assumption.
   - (* index *)
-    eapply mres_bind; [eapply IH; eassumption|]. intros av l1 Hav.
-    eapply mres_bind; [eapply IH; eassumption|]. intros iv l2 Hiv.
+    eapply mres_bind; [eapply IH; eassumption|]. intros av l1 Hav; simpl in Hav.
+    eapply mres_bind; [eapply IH; eassumption|]. intros iv l2 Hiv; simpl in Hiv.
     apply vtyp_arr_inv in Hav. destruct Hav as [vs [-> Hvs]].
     apply vtyp_int_inv in Hiv. destruct Hiv as [z ->].
     destruct (Z.leb 0 z && Z.ltb z (Z.of_nat (length vs)))%bool eqn:Eb; [|exact I].
     apply andb_true_iff in Eb. destruct Eb as [E1 E2].
     apply Z.leb_le in E1. apply Z.ltb_lt in E2.
     destruct (nth_error vs (Z.to_nat z)) as [x|] eqn:En.
-    + eapply vall_nth; eauto.
+    + apply mres_ret. eapply vall_nth; eauto.
     + apply nth_error_None in En. lia.
   - (* length *)
-    eapply mres_bind; [eapply IH; eassumption|]. intros av l1 Hav.
-    apply vtyp_arr_inv in Hav. destruct Hav as [vs [-> Hvs]]. constructor.
+    eapply mres_bind; [eapply IH; eassumption|]. intros av l1 Hav; simpl in Hav.
+    apply vtyp_arr_inv in Hav. destruct Hav as [vs [-> Hvs]]. apply mres_ret. constructor.
   - (* match *)
-    eapply mres_bind; [eapply IH; eassumption|]. intros v l1 Hv.
+    eapply mres_bind; [eapply IH; eassumption|]. intros v l1 Hv; simpl in Hv.
     destruct (first_match v alts) as [[b e']|] eqn:E; [|exact I].
     destruct (first_match_typ _ _ _ _ _ _ _ _ H0 Hv E) as [B [Hb He]].
     eapply IH; [eassumption|]. apply env_typ_app; assumption.
   - (* seq *)
-    eapply mres_bind; [eapply IH; eassumption|]. intros v l1 Hv.
+    eapply mres_bind; [eapply IH; eassumption|]. intros v l1 Hv; simpl in Hv.
     eapply IH; eassumption.
   - (* error *) exact I.
   - (* eff *)
-    eapply mres_bind; [eapply IH; eassumption|]. intros v l1 Hv.
-    apply vtyp_int_inv in Hv. destruct Hv as [z ->]. constructor.
+    eapply mres_bind; [eapply IH; eassumption|]. intros v l1 Hv; simpl in Hv.
+    apply vtyp_int_inv in Hv. destruct Hv as [z ->]. apply mres_ret. constructor.
   - (* annotation *) eapply IH; eassumption.
+Qed.
+
+(* ---------------------------------------------------------------- the shape check *)
+(* the local fixpoints of check_shape, named *)
+Definition shape_list (cs : ty -> value -> bool) :=
+  fix go (vs : list value) (ts : list ty) {struct vs} : bool :=
+    match vs, ts with
+    | [], [] => true
+    | w :: vs', u :: ts' => cs u w && go vs' ts'
+    | _, _ => false
+    end.
+Definition shape_fields (cs : ty -> value -> bool) :=
+  fix go (fs : list (name * value)) (fts : list (name * ty)) {struct fs} : bool :=
+    match fs, fts with
+    | [], [] => true
+    | f :: fs', ft :: fts' => N.eqb (fst f) (fst ft) && cs (snd ft) (snd f) && go fs' fts'
+    | _, _ => false
+    end.
+Definition shape_all (cs : ty -> value -> bool) (u : ty) :=
+  fix go (vs : list value) {struct vs} : bool :=
+    match vs with
+    | [] => true
+    | w :: vs' => cs u w && go vs'
+    end.
+
+Lemma check_shape_data : forall D d targs tag vs,
+  check_shape D (TData d targs) (VData tag vs) =
+  match ctor_args D d targs tag with
+  | Some cts => shape_list (check_shape D) vs cts
+  | None => false
+  end.
+Proof. reflexivity. Qed.
+Lemma check_shape_rcd : forall D fts fs,
+  check_shape D (TRcd fts) (VRcd fs) = shape_fields (check_shape D) fs fts.
+Proof. reflexivity. Qed.
+Lemma check_shape_arr : forall D u vs,
+  check_shape D (TArr u) (VArr vs) = shape_all (check_shape D) u vs.
+Proof. reflexivity. Qed.
+
+(* every well-typed value passes the shape check *)
+Lemma vtyp_check_shape_all : forall D,
+  (forall v t, vtyp D v t -> check_shape D t v = true) /\
+  (forall vs ts, vstyp D vs ts -> shape_list (check_shape D) vs ts = true) /\
+  (forall fs fts, fstyp D fs fts -> shape_fields (check_shape D) fs fts = true) /\
+  (forall vs t, vall D vs t -> shape_all (check_shape D) t vs = true) /\
+  (forall r G, env_typ D r G -> True).
+Proof.
+  intros D. apply vtyp_mutind; intros; try reflexivity; auto.
+  - (* data *) rewrite check_shape_data. rewrite H. assumption.
+  - (* closure *) subst t. destruct ts as [|t0 ts]; [|reflexivity].
+    destruct xs; [congruence | discriminate].
+  - (* list *) simpl. rewrite H0, H2. reflexivity.
+  - (* fields *) simpl. rewrite N.eqb_refl, H0, H2. reflexivity.
+  - (* array *) simpl. rewrite H0, H2. reflexivity.
+Qed.
+
+Lemma vtyp_check_shape : forall D v t, vtyp D v t -> check_shape D t v = true.
+Proof. intros D. exact (proj1 (vtyp_check_shape_all D)). Qed.
+
+(* induction on values through the nested lists (closures are leaves for the shape check) *)
+Section value_ind_nested.
+  Variable P : value -> Prop.
+  Hypothesis HInt : forall z, P (VInt z).
+  Hypothesis HByte : forall z, P (VByte z).
+  Hypothesis HFloat : forall b, P (VFloat b).
+  Hypothesis HStr : forall s, P (VStr s).
+  Hypothesis HData : forall tag vs, Forall P vs -> P (VData tag vs).
+  Hypothesis HRcd : forall fs, Forall (fun f => P (snd f)) fs -> P (VRcd fs).
+  Hypothesis HArr : forall vs, Forall P vs -> P (VArr vs).
+  Hypothesis HClo : forall r g xs b, P (VClo r g xs b).
+  Hypothesis HPap : forall f args, P (VPap f args).
+
+  Fixpoint value_ind_nested (v : value) : P v :=
+    match v with
+    | VInt z => HInt z
+    | VByte z => HByte z
+    | VFloat b => HFloat b
+    | VStr s => HStr s
+    | VData tag vs =>
+        HData tag vs ((fix go (vs : list value) : Forall P vs :=
+                         match vs with
+                         | [] => Forall_nil _
+                         | w :: vs' => Forall_cons _ (value_ind_nested w) (go vs')
+                         end) vs)
+    | VRcd fs =>
+        HRcd fs ((fix go (fs : list (name * value)) : Forall (fun f => P (snd f)) fs :=
+                    match fs with
+                    | [] => Forall_nil _
+                    | f :: fs' => Forall_cons _ (value_ind_nested (snd f)) (go fs')
+                    end) fs)
+    | VArr vs =>
+        HArr vs ((fix go (vs : list value) : Forall P vs :=
+                    match vs with
+                    | [] => Forall_nil _
+                    | w :: vs' => Forall_cons _ (value_ind_nested w) (go vs')
+                    end) vs)
+    | VClo r g xs b => HClo r g xs b
+    | VPap f args => HPap f args
+    end.
+End value_ind_nested.
+
+(* [check_shape] decides [shaped] *)
+Lemma check_shape_sound : forall D v t, check_shape D t v = true -> shaped D v t.
+Proof.
+  intros D v. induction v using value_ind_nested; intros t E;
+    destruct t; try discriminate E; try constructor.
+  - (* data *) rewrite check_shape_data in E.
+    destruct (ctor_args D d args tag) as [cts|] eqn:EC; [|discriminate].
+    econstructor; [exact EC|]. clear EC.
+    revert cts E. induction H as [|w vs Hw _ IH]; intros [|u cts] E; simpl in E; try discriminate.
+    + constructor.
+    + apply andb_true_iff in E. destruct E. constructor; auto.
+  - (* record *) rewrite check_shape_rcd in E.
+    revert fs0 E. induction H as [|f fs Hf _ IH]; intros [|ft fts] E; simpl in E; try discriminate.
+    + constructor.
+    + apply andb_true_iff in E. destruct E as [E E3]. apply andb_true_iff in E. destruct E as [E1 E2].
+      apply N.eqb_eq in E1. constructor; auto.
+  - (* array *) rewrite check_shape_arr in E.
+    induction H as [|w vs Hw _ IH]; simpl in E.
+    + constructor.
+    + apply andb_true_iff in E. destruct E. constructor; auto.
+Qed.
+
+Lemma shaped_check_shape : forall D v t, shaped D v t -> check_shape D t v = true.
+Proof.
+  intros D v. induction v using value_ind_nested; intros t S; inversion S; subst; try reflexivity.
+  - (* data *) rewrite check_shape_data.
+    match goal with HC : ctor_args _ _ _ _ = Some _ |- _ => rewrite HC; clear HC end.
+    match goal with HF : Forall2 _ vs ?cts |- _ => revert cts HF end. clear S.
+    induction H as [|w vs Hw _ IH]; intros cts F; inversion F; subst; simpl.
+    + reflexivity.
+    + rewrite (Hw _ ltac:(eassumption)). simpl. auto.
+  - (* record *) rewrite check_shape_rcd.
+    clear S. match goal with HF : Forall2 _ fs ?fts |- _ => revert fts HF end.
+    induction H as [|f fs Hf _ IH]; intros fts F; inversion F as [|? ft ? ? [E1 E2] F']; subst; simpl.
+    + reflexivity.
+    + rewrite E1, N.eqb_refl, (Hf _ E2). simpl. auto.
+  - (* array *) rewrite check_shape_arr.
+    match goal with HF : Forall _ vs |- _ => revert HF end. clear S.
+    induction H as [|w vs Hw _ IH]; intros F; simpl.
+    + reflexivity.
+    + inversion F; subst. rewrite (Hw _ ltac:(eassumption)). simpl. auto.
+Qed.
+
+Theorem check_shape_iff : forall D v t, check_shape D t v = true <-> shaped D v t.
+Proof. split; [apply check_shape_sound | apply shaped_check_shape]. Qed.
+
+Corollary vtyp_shaped : forall D v t, vtyp D v t -> shaped D v t.
+Proof. intros. apply check_shape_sound. apply vtyp_check_shape. assumption. Qed.
+
+(* on first-order data the shape check is the full value typing *)
+Lemma check_strict_data : forall D d targs tag vs,
+  check_strict D (TData d targs) (VData tag vs) =
+  match ctor_args D d targs tag with
+  | Some cts => shape_list (check_strict D) vs cts
+  | None => false
+  end.
+Proof. reflexivity. Qed.
+Lemma check_strict_rcd : forall D fts fs,
+  check_strict D (TRcd fts) (VRcd fs) = shape_fields (check_strict D) fs fts.
+Proof. reflexivity. Qed.
+Lemma check_strict_arr : forall D u vs,
+  check_strict D (TArr u) (VArr vs) = shape_all (check_strict D) u vs.
+Proof. reflexivity. Qed.
+
+Theorem check_strict_vtyp : forall D v t, check_strict D t v = true -> vtyp D v t.
+Proof.
+  intros D v. induction v using value_ind_nested; intros t E;
+    destruct t; try discriminate E; try constructor.
+  - (* data *) rewrite check_strict_data in E.
+    destruct (ctor_args D d args tag) as [cts|] eqn:EC; [|discriminate].
+    econstructor; [exact EC|]. clear EC.
+    revert cts E. induction H as [|w vs Hw _ IH]; intros [|u cts] E; simpl in E; try discriminate.
+    + constructor.
+    + apply andb_true_iff in E. destruct E. constructor; auto.
+  - (* record *) rewrite check_strict_rcd in E.
+    revert fs0 E. induction H as [|[l w] fs Hf _ IH]; intros [|[l' u] fts] E; simpl in E; try discriminate.
+    + constructor.
+    + apply andb_true_iff in E. destruct E as [E E3]. apply andb_true_iff in E. destruct E as [E1 E2].
+      apply N.eqb_eq in E1. subst l'. constructor; auto.
+  - (* array *) rewrite check_strict_arr in E.
+    induction H as [|w vs Hw _ IH]; simpl in E.
+    + constructor.
+    + apply andb_true_iff in E. destruct E. constructor; auto.
+Qed.
+
+Theorem check_strict_check_shape : forall D v t, check_strict D t v = true -> check_shape D t v = true.
+Proof. intros. apply vtyp_check_shape. apply check_strict_vtyp. assumption. Qed.
+
+(* ---------------------------------------------------------------- the harness's view *)
+Definition raw_list (cr : ty -> rval -> bool) :=
+  fix go (vs : list rval) (ts : list ty) {struct vs} : bool :=
+    match vs, ts with
+    | [], [] => true
+    | w :: vs', u :: ts' => cr u w && go vs' ts'
+    | _, _ => false
+    end.
+Definition raw_fields (cr : ty -> rval -> bool) :=
+  fix go (vs : list rval) (fts : list (name * ty)) {struct vs} : bool :=
+    match vs, fts with
+    | [], [] => true
+    | w :: vs', ft :: fts' => cr (snd ft) w && go vs' fts'
+    | _, _ => false
+    end.
+Definition raw_all (cr : ty -> rval -> bool) (u : ty) :=
+  fix go (vs : list rval) {struct vs} : bool :=
+    match vs with
+    | [] => true
+    | w :: vs' => cr u w && go vs'
+    end.
+
+Lemma erase_data : forall tag vs, erase (VData tag vs) = RData tag (map erase vs).
+Proof. reflexivity. Qed.
+Lemma erase_rcd : forall fs, erase (VRcd fs) = RData 0 (map (fun f => erase (snd f)) fs).
+Proof. reflexivity. Qed.
+Lemma erase_arr : forall vs, erase (VArr vs) = RArr (map erase vs).
+Proof. reflexivity. Qed.
+
+Lemma check_raw_data : forall D d targs tag vs,
+  check_raw D (TData d targs) (RData tag vs) =
+  match ctor_args D d targs tag with
+  | Some cts => raw_list (check_raw D) vs cts
+  | None => false
+  end.
+Proof. reflexivity. Qed.
+Lemma check_raw_rcd : forall D fts tag vs,
+  check_raw D (TRcd fts) (RData tag vs) = N.eqb tag 0 && raw_fields (check_raw D) vs fts.
+Proof. reflexivity. Qed.
+Lemma check_raw_arr : forall D u vs,
+  check_raw D (TArr u) (RArr vs) = raw_all (check_raw D) u vs.
+Proof. reflexivity. Qed.
+
+(* The shape check on what the harness can observe of a value accepts every value that passes
+   the model's shape check: the monitor cannot raise a false alarm on a well-shaped value. *)
+Theorem check_raw_erase : forall D v t, check_shape D t v = true -> check_raw D t (erase v) = true.
+Proof.
+  intros D v. induction v using value_ind_nested; intros t E;
+    destruct t; try discriminate E; try reflexivity.
+  - (* data *) rewrite check_shape_data in E. rewrite erase_data, check_raw_data.
+    destruct (ctor_args D d args tag) as [cts|]; [|discriminate].
+    revert cts E. induction H as [|w vs Hw _ IH]; intros [|u cts] E; simpl in *; try discriminate.
+    + reflexivity.
+    + apply andb_true_iff in E. destruct E as [E1 E2]. rewrite (Hw _ E1). simpl. auto.
+  - (* record *) rewrite check_shape_rcd in E. rewrite erase_rcd, check_raw_rcd. simpl.
+    revert fs0 E. induction H as [|f fs Hf _ IH]; intros [|ft fts] E; simpl in *; try discriminate.
+    + reflexivity.
+    + apply andb_true_iff in E. destruct E as [E E3]. apply andb_true_iff in E. destruct E as [E1 E2].
+      rewrite (Hf _ E2). simpl. auto.
+  - (* array *) rewrite check_shape_arr in E. rewrite erase_arr, check_raw_arr.
+    induction H as [|w vs Hw _ IH]; simpl in *.
+    + reflexivity.
+    + apply andb_true_iff in E. destruct E as [E1 E2]. rewrite (Hw _ E1). simpl. auto.
+Qed.
+
+(* ---------------------------------------------------------------- type soundness *)
+(* Programs the (model) checker accepts never go wrong, for every fuel and every initial log;
+   a returned value has the shape of the program's type. *)
+Theorem type_soundness : forall D e t, decls_ok D -> has_type D [] e t ->
+  forall n l,
+    fst (eval n [] e l) <> Stuck /\
+    (forall v l', eval n [] e l = (Ok v, l') -> check_shape D t v = true).
+Proof.
+  intros D e t HD Ht n l.
+  pose proof (eval_safe D HD n [] e t [] l Ht (ET_nil D)) as K. unfold mres in K.
+  split.
+  - intros E. rewrite E in K. exact K.
+  - intros v l' E. rewrite E in K. simpl in K. apply vtyp_check_shape. exact K.
+Qed.
+
+(* the same, in any well-typed environment and with the full value typing *)
+Theorem type_soundness_open : forall D G e t r, decls_ok D -> has_type D G e t -> env_typ D r G ->
+  forall n l,
+    fst (eval n r e l) <> Stuck /\
+    (forall v l', eval n r e l = (Ok v, l') -> vtyp D v t).
+Proof.
+  intros D G e t r HD Ht Hr n l.
+  pose proof (eval_safe D HD n G e t r l Ht Hr) as K. unfold mres in K.
+  split.
+  - intros E. rewrite E in K. exact K.
+  - intros v l' E. rewrite E in K. exact K.
+Qed.
+
+(* what the harness checks on the real VM's value is implied for the model's *)
+Corollary type_soundness_observed : forall D e t, decls_ok D -> has_type D [] e t ->
+  forall n l v l', eval n [] e l = (Ok v, l') -> check_raw D t (erase v) = true.
+Proof.
+  intros D e t HD Ht n l v l' E. apply check_raw_erase.
+  exact (proj2 (type_soundness D e t HD Ht n l) v l' E).
+Qed.
+
+(* contrapositive: a program the reference semantics gets stuck on has no type *)
+Corollary stuck_untypable : forall D e n l, decls_ok D ->
+  fst (eval n [] e l) = Stuck -> forall t, ~ has_type D [] e t.
+Proof.
+  intros D e n l HD E t Ht. exact (proj1 (type_soundness D e t HD Ht n l) E).
+Qed.
+
+(* ---------------------------------------------------------------- derived HM-style rules *)
+(* monomorphic let / rec are instances of the scheme rules *)
+Lemma T_Let_mono : forall D G x e1 e2 t1 t,
+  has_type D G e1 t1 -> has_type D ((x, mono t1) :: G) e2 t -> has_type D G (ELet (PVar x) e1 e2) t.
+Proof.
+  intros. eapply T_LetGen with (S := mono t1); [exists t1; reflexivity | | assumption].
+  intros t' <-. assumption.
+Qed.
+
+(* HM generalisation: e1 typable at every substitution instance of t1 *)
+Lemma T_Let_HM : forall D G x e1 e2 t1 t,
+  (forall s, has_type D G e1 (subst s t1)) ->
+  has_type D ((x, fun t' => exists s, t' = subst s t1) :: G) e2 t ->
+  has_type D G (ELet (PVar x) e1 e2) t.
+Proof.
+  intros D G x e1 e2 t1 t H1 H2. eapply T_LetGen; [| |exact H2].
+  - exists (subst [] t1), []. reflexivity.
+  - intros t' [s ->]. apply H1.
+Qed.
+
+(* ---------------------------------------------------------------- witnesses *)
+(* the system is not vacuous: the polymorphic identity used at two types … *)
+Example poly_id_typable : forall D, decls_ok D ->
+  has_type D [] (ELet (PVar 1%N) (ELam [2%N] (EVar 2%N))
+                   (ETup [EApp (EVar 1%N) [ELit (LInt 3)]; EApp (EVar 1%N) [ELit (LStr [])]]))
+           (ttuple [TInt; TStr]).
+Proof.
+  intros D HD.
+  eapply T_LetGen with (S := fun t => exists a, t = arrows [a] a).
+  - exists (arrows [TInt] TInt), TInt. reflexivity.
+  - intros t [a ->]. apply T_Lam; [discriminate | reflexivity |]. simpl.
+    eapply T_Var; [reflexivity | reflexivity].
+  - apply T_Tup. repeat constructor.
+    + eapply T_App with (ts := [TInt]); [|repeat constructor; apply (T_Lit D _ (LInt 3))].
+      eapply T_Var; [reflexivity|]. exists TInt. reflexivity.
+    + eapply T_App with (ts := [TStr]); [|repeat constructor; apply (T_Lit D _ (LStr []))].
+      eapply T_Var; [reflexivity|]. exists TStr. reflexivity.
+Qed.
+
+(* … a rec group, polymorphic in its body: rec f x = f x in (f 1, f "") … *)
+Example rec_typable : forall D, decls_ok D ->
+  has_type D [] (ERec [(1%N, ([2%N], EApp (EVar 1%N) [EVar 2%N]))]
+                   (ETup [EApp (EVar 1%N) [ELit (LInt 1)]; EApp (EVar 1%N) [ELit (LStr [])]]))
+           (ttuple [TInt; TByte]).
+Proof.
+  intros D HD.
+  eapply T_Rec with (Gs := fun Gg => exists a b, Gg = [(1%N, arrows [a] b)]).
+  - intros Gg [a [b ->]]. constructor; [|constructor]. split; [reflexivity|].
+    exists [a], b. simpl. repeat split; try discriminate.
+    eapply T_App with (ts := [a]).
+    + eapply T_Var; [reflexivity | reflexivity].
+    + repeat constructor. eapply T_Var; [reflexivity | reflexivity].
+  - apply T_Tup. repeat constructor.
+    + eapply T_App with (ts := [TInt]); [|repeat constructor; apply (T_Lit D _ (LInt 1))].
+      eapply T_Var; [reflexivity|]. simpl. exists [(1%N, arrows [TInt] TInt)]. split; [exists TInt, TInt; reflexivity | reflexivity].
+    + eapply T_App with (ts := [TStr]); [|repeat constructor; apply (T_Lit D _ (LStr []))].
+      eapply T_Var; [reflexivity|]. simpl. exists [(1%N, arrows [TStr] TByte)]. split; [exists TStr, TByte; reflexivity | reflexivity].
+Qed.
+
+(* … and `1 2` ("Cannot call 1") has no type *)
+Example cannot_call_untypable : forall D t, decls_ok D ->
+  ~ has_type D [] (EApp (ELit (LInt 1)) [ELit (LInt 2)]) t.
+Proof.
+  intros D t HD. apply (stuck_untypable D _ 3 [] HD). reflexivity.
 Qed.
